@@ -84,7 +84,11 @@ def _tree(task):
 
 
 def named_trees():
-    out = []
+    from .c11 import with_qk
+
+    out = [with_qk(t, "named") for t in S.D1() if "q" in t]
+    out += [with_qk(t, "named") for t in S.unary({"t": "Average", "q": "y"}, "x")]
+    out += [with_qk(t, "named") for t in S.collections({"t": "Deviate", "q": "x"}, {"t": "Deviate", "q": "y"})]
     for qk in ("named",):
         leaf = {"t": "Sum", "q": "y", "qk": qk}
         out.append({"t": "Bin", "p": S.BIN_CFG[0], "q": "x", "qk": qk, "v": leaf})
